@@ -53,6 +53,21 @@ func c11Config(v string) string {
 	if v == "none" {
 		return ""
 	}
+	if v == "prom2" {
+		// two Prometheus servers nobody listens on: every online check becomes two jobs per rule (one per server),
+		// each reporting that it could not run - same reporter, same lines, texts differing in the server name
+		return c11Config("same") + `prometheus "one" {
+  uri      = "http://127.0.0.1:1"
+  timeout  = "2s"
+  required = true
+}
+prometheus "two" {
+  uri      = "http://127.0.0.1:2"
+  timeout  = "2s"
+  required = true
+}
+`
+	}
 	return fmt.Sprintf(`rule {
   label "team" {
     required = true
@@ -147,7 +162,7 @@ func c11Execute(dir string, in c11Input, perm func(n int) []int) ([][]reporter.R
 			return nil, err
 		}
 	}
-	p, err := pipe.Prepare(dir, order, pipe.Opts{Strict: true, Offline: true, Command: "lint", Config: c11Config(in.Cfg)})
+	p, err := pipe.Prepare(dir, order, pipe.Opts{Strict: true, Offline: in.Cfg != "prom2", Command: "lint", Config: c11Config(in.Cfg)})
 	if err != nil {
 		return nil, err
 	}
@@ -470,7 +485,7 @@ func c11Replay(id int, in c11Input, emit func(any)) error {
 			hs = append(hs, c11Hash(o))
 		}
 		rec := map[string]any{"ev": "Order", "id": id, "oid": oi, "canon": oi == 0, "order": arr, "final": final, "dup": dup, "ndups": ndups, "h": hs, "text": "",
-			"bind": oi <= bindN} // JUDGE re-computes the fold of the spec for the first orders of every input
+			"bind": oi <= bindN && (len(reps) <= 20 || oi <= 2)} // long inputs: the fold costs TLC O(n^2) // JUDGE re-computes the fold of the spec for the first orders of every input
 		if oi == 0 {
 			rec["text"] = outs[0]
 		}
@@ -485,10 +500,25 @@ var (
 	c11DurRe  = regexp.MustCompile(`duration=\S+`)
 )
 
-func c11RunBin(bin, dir string, workers, procs int, seed string, files []string) (stderr string, jsonOut string, code int, race bool, err error) {
+// mode: lint | lint-dups (--show-duplicates) | lint-minsev (--min-severity=bug) | ci (pint ci on a scratch git
+// repository whose feature branch adds the files; checkRules is the same code, entries come from GitBranchFinder)
+func c11RunBin(bin, dir, mode string, online bool, workers, procs int, seed string, files []string) (stderr string, jsonOut string, code int, race bool, err error) {
 	jpath := filepath.Join(dir, "out.json")
 	_ = os.Remove(jpath)
-	args := append([]string{"--no-color", "--offline", "--workers", strconv.Itoa(workers), "lint", "--json", jpath}, files...)
+	args := []string{"--no-color", "--workers", strconv.Itoa(workers)}
+	if !online {
+		args = append(args, "--offline")
+	}
+	switch mode {
+	case "ci":
+		args = append(args, "ci", "--base-branch", "main")
+	case "lint-dups":
+		args = append(append(args, "lint", "--show-duplicates", "--json", jpath), files...)
+	case "lint-minsev":
+		args = append(append(args, "lint", "--min-severity=bug", "--json", jpath), files...)
+	default:
+		args = append(append(args, "lint", "--json", jpath), files...)
+	}
 	cmd := exec.Command(bin, args...)
 	cmd.Dir = dir
 	cmd.Env = append(os.Environ(), "GOMAXPROCS="+strconv.Itoa(procs), "GORACE=halt_on_error=0 exitcode=0", "NO_COLOR=1")
@@ -518,6 +548,15 @@ func c11RunBin(bin, dir string, workers, procs int, seed string, files []string)
 	race = strings.Contains(out, "WARNING: DATA RACE")
 	out = c11TimeRe.ReplaceAllString(out, "")
 	out = c11DurRe.ReplaceAllString(out, "duration=X")
+	// log lines are written by whichever goroutine gets there first (failed queries of online checks are logged
+	// by the workers): only the report itself and the final count are compared
+	var kept []string
+	for _, ln := range strings.Split(out, "\n") {
+		if !strings.HasPrefix(ln, "level=") || strings.Contains(ln, `msg="Problems found"`) || strings.Contains(ln, "DATA RACE") {
+			kept = append(kept, ln)
+		}
+	}
+	out = strings.Join(kept, "\n")
 	jb, _ := os.ReadFile(jpath)
 	return out, string(jb), code, race, nil
 }
@@ -596,6 +635,7 @@ func init() {
 			var c struct {
 				c11Input
 				Combos [][3]int `json:"combos"` // workers, GOMAXPROCS, jitter seed (0 = none)
+				Mode   string   `json:"mode"`
 			}
 			fail := func(err error) {
 				mu.Lock()
@@ -618,17 +658,51 @@ func init() {
 			for n, b := range files {
 				_ = os.WriteFile(filepath.Join(dir, n), b, 0o644)
 			}
-			_ = os.WriteFile(filepath.Join(dir, ".pint.hcl"), []byte(c11Config(c.Cfg)), 0o644)
+			hcl := c11Config(c.Cfg)
+			if c.Mode == "" {
+				c.Mode = "lint"
+			}
+			if c.Mode == "ci" {
+				// main has only a readme; the feature branch adds the rule files and the configuration
+				hcl += "\nci {\n  baseBranch = \"main\"\n}\n"
+				git := func(args ...string) error {
+					cmd := exec.Command("git", append([]string{"-c", "user.name=verif", "-c", "user.email=verif@example.com", "-c", "commit.gpgsign=false"}, args...)...)
+					cmd.Dir = dir
+					if out, err := cmd.CombinedOutput(); err != nil {
+						return fmt.Errorf("git %v: %v: %s", args, err, out)
+					}
+					return nil
+				}
+				_ = os.WriteFile(filepath.Join(dir, "README"), []byte("rules\n"), 0o644)
+				for _, a := range [][]string{{"init", "-q", "-b", "main"}, {"add", "README"}, {"commit", "-q", "-m", "init"}, {"checkout", "-q", "-b", "feature"}} {
+					if err := git(a...); err != nil {
+						fail(err)
+						return
+					}
+				}
+			}
+			_ = os.WriteFile(filepath.Join(dir, ".pint.hcl"), []byte(hcl), 0o644)
+			if c.Mode == "ci" {
+				cmd := exec.Command("git", "-c", "user.name=verif", "-c", "user.email=verif@example.com", "-c", "commit.gpgsign=false", "add", "-A")
+				cmd.Dir = dir
+				_ = cmd.Run()
+				cmd = exec.Command("git", "-c", "user.name=verif", "-c", "user.email=verif@example.com", "-c", "commit.gpgsign=false", "commit", "-q", "-m", "add rules")
+				cmd.Dir = dir
+				if out, err := cmd.CombinedOutput(); err != nil {
+					fail(fmt.Errorf("git commit: %v: %s", err, out))
+					return
+				}
+			}
 			id := idx + 1
 			rules := append([]string{}, c.Rules...)
-			recs := []any{map[string]any{"ev": "BinFile", "id": id, "cfg": c.Cfg, "rules": rules, "two": c.Two, "grp": c.Grp}}
+			recs := []any{map[string]any{"ev": "BinFile", "id": id, "cfg": c.Cfg, "rules": rules, "two": c.Two, "grp": c.Grp, "mode": c.Mode}}
 			combos := append([][3]int{{1, 1, 0}}, c.Combos...)
 			for k, cb := range combos {
 				seed := ""
 				if cb[2] != 0 {
 					seed = strconv.Itoa(cb[2])
 				}
-				se, js, code, race, err := c11RunBin(bin, dir, cb[0], cb[1], seed, order)
+				se, js, code, race, err := c11RunBin(bin, dir, c.Mode, c.Cfg == "prom2", cb[0], cb[1], seed, order)
 				if err != nil {
 					fail(err)
 					return
